@@ -192,7 +192,7 @@ def gen_version(rng, kind):
     pick = lambda: rng.choice([p[0] for p in pairs]) if pairs and rng.random() < 0.9 else rng.choice(['Missing', 'Identity', ''])
     stmf, strf = pick(), pick()
     m = dict(pairs)
-    alldiff = all(m.get(x, 'rc4') != 'id' for x in (stmf, strf))
+    alldiff = all(x != 'Identity' and m.get(x, 'rc4') != 'id' for x in (stmf, strf))
     cfs = CFS(pairs)
     if kind in ('v4', 'v4odd'):
         return (lambda o, u: L('v4', '1' if em else '0', cfs, xb(stmf), xb(strf), xb(o), xb(u), str(perms))), 32, [p[0] for p in pairs], alldiff
